@@ -454,8 +454,8 @@ Definition check_xfer_shapes (f : xfer_facts) : bool :=
   && String.eqb (xf_stor_open f) "conn.path_io.open(real_path, mode=file_mode)"
   && String.eqb (xf_retr_open f) "conn.path_io.open(real_path, mode='rb')"
   && list_string_eqb (xf_rest_body f)
-       ["rest.isascii() and rest.isdigit() => conn.restart_offset = int(rest)";
-        "not (rest.isascii() and rest.isdigit()) => conn.restart_offset = 0"]
+       ["rest.isascii() and rest.isdigit() and (len(rest) <= 18) => conn.restart_offset = int(rest)";
+        "not (rest.isascii() and rest.isdigit() and (len(rest) <= 18)) => conn.restart_offset = 0"]
   && list_string_eqb (xf_reset_stmt f)
        ["pending.add(asyncio.create_task(f(conn, rest)))";
         "if cmd in ('retr', 'stor', 'appe'): conn.transfer_offset = conn.restart_offset";
